@@ -81,6 +81,27 @@ def run(ctx):
     r01b(ctx)
     r01c(ctx)
     r01d(ctx)
+    r01e(ctx)
+
+
+def r01e(ctx):
+    """copy assignment of the card and card-secret classes writes every state-carrying member (sa/statecover.py): a card
+    that keeps a component (or a cached value derived from one) of its previous contents opens to something else"""
+    from ..statecover import assignment_gaps
+    n = 0
+    for cls in ('TMCG_Card', 'VTMF_Card', 'TMCG_CardSecret', 'VTMF_CardSecret'):
+        r = assignment_gaps(ctx.prog, cls)
+        if r is None:
+            continue
+        gaps, cs, ex, ops = r
+        n += 1
+        if gaps:
+            for m, f, line, op in gaps:
+                ctx.bad('R01e', 'R01e:%s:%s' % (cls, m), 'operator= does not write the member %s, which %s reads before writing it (line %d): an '
+                        'assigned card keeps the old %s' % (m, f['q'], line, m), op)
+        else:
+            ctx.ok('R01e', 'R01e:%s' % cls, 'operator= writes all state-carrying members (%s)' % (', '.join(sorted(ex)) or 'none read before written'), ops[0])
+    ctx.floor('R01e', n, 4)
 
 
 # ------------------------------------------------------------------------------------- R01a
